@@ -60,13 +60,14 @@ def gen_cases(r, tier):
     cnt = [0]
     quick = tier == "quick"
 
-    def add(src, kind, mode=None, extra_inc=None):
+    def add(src, kind, mode=None, extra_inc=None, units=()):
         if isinstance(src, str):
             b = src.encode("latin1", "replace")
         else:
             b = src
         if mode is None:
-            mode = "B" if (b"\x00" in b or r.random() < 0.3) else "S"
+            u = r.random()
+            mode = "B" if (b"\x00" in b or u < 0.25) else ("F" if u < 0.32 else ("D" if u < 0.39 else "S"))
         if mode == "S" and b"\x00" in b:
             b = b.replace(b"\x00", b"\x01")
         cid = "k%d" % cnt[0]; cnt[0] += 1
@@ -74,7 +75,7 @@ def gen_cases(r, tier):
             txt = b.decode("latin1")
         except Exception:
             txt = ""
-        cases.append("%s %s %s%s" % (cid, mode, hexs(b), inc_fields(txt, extra_inc)))
+        cases.append("%s %s %s%s%s" % (cid, mode, hexs(b), inc_fields(txt, extra_inc), "".join(" U" + hexs(u.encode("latin1")) for u in units)))
         meta[cid] = kind
 
     for src in K.RULES:                                    # corpus itself: must compile cleanly
@@ -124,6 +125,73 @@ def gen_cases(r, tier):
               'uint8(/a/) == 0', 'for any i in (/a/..2) : ( i == 1 )', '/a/ of them', 'not /a/', '/a/ and true', '/a/ matches /b/', '/a/ == /a/', 'filesize > /a/',
               'pe == 1', 'pe.sections == 1', 'pe.sections + 1 == 2', '- pe.version_info == 0', 'pe.is_dll + 1 == 1']:
         add('import "pe" rule t { strings: $a = "a" condition: %s }' % e, "wrong-type-operand")
+    # character classes: range ends at the byte-value boundaries, escapes before/after literal members, negation, `]` first, `-` first/last;
+    # as regexp strings (raw byte and \\xNN spellings) and as `matches` operands
+    BND = [0x00, 0x01, 0x7f, 0x80, 0xfe, 0xff]
+    classes = []
+    for lo in BND:
+        for hi in BND:
+            classes.append("[\\x%02x-\\x%02x]" % (lo, hi))
+            if lo <= hi and lo >= 0x20 and lo not in (0x5c, 0x5d, 0x2f) :
+                classes.append("[%s-\\x%02x]" % (chr(lo), hi))
+    classes += ["[\\x80-\xff]", "[a-\xff]", "[\xfe-\xff]", "[^\\x00-\\xff]", "[^\\x80-\\xff]", "[^\\x00]", "[^\\xff]", "[\\x00-\\xff]+", "[\\w\\x80-\\xff]",
+                "[\\x80-\\xff\\w]", "[\\Wa]", "[a\\W]", "[\\s\\S]", "[\\d\\D\\xff]", "[^\\w\\xff]", "[]a]", "[]-a]", "[^]a]", "[-a]", "[a-]", "[a\\-z]", "[\\]-\\xff]",
+                "[--\\xff]", "[\\x00-\\x00]", "[\\xff-\\xff]", "[\\xff-\\x00]", "[\\x80-\\x7f]", "[a-zA-Z0-9_\\x80-\\xff]{2,4}", "[\\x00-\\x7f][\\x80-\\xff]", "[^a-\\xff]", "[\\b]", "[.]", "[\\/-\\xff]",
+                "[\\x41-\\xFF]", "[ -\\xff]", "[\\t-\\xff]", "[\\n-\\xff]"]
+    for c in classes:
+        add('rule cc { strings: $a = /ab%s/ condition: $a }' % c, "char-class", "B")
+        add('rule cc { strings: $a = /%sxy/ nocase wide condition: $a }' % c, "char-class", "B")
+        add('rule cc { condition: "abc" matches /%s/ }' % c, "char-class", "B")
+    # hex jumps / alternatives at their limits
+    for j in ["[0-255]", "[0-256]", "[255-256]", "[256-257]", "[0-9999]", "[1-10000]", "[10000-10001]", "[0-4294967295]", "[4294967295-4294967296]", "[0-]", "[255-]", "[256-]",
+              "[10000-]", "[200]", "[201]", "[255]", "[256]", "[0]", "[0-0]", "[1-1]", "[2-1]", "[-1]", "[0-1][0-1]"]:
+        add('rule hj { strings: $a = { 01 02 03 %s 04 05 06 } condition: $a }' % j, "hex-jump-limits")
+        add('rule hj { strings: $a = { 01 02 ( 03 %s 04 | 05 ) 06 } condition: $a }' % j, "hex-jump-limits")
+    # SEQUENCES of loops of different kinds in one compiler: same condition, nested both ways, consecutive rules, a loop aborted by an error in
+    # its body followed by another loop (the parser recovers and goes on with the next rule), and further compilation units on the same compiler
+    LOOPS = {"in-range": "for any i in (1..3) : ( i == 2 )", "in-enum": "for all j in (1, 2, 3) : ( j > 0 )", "in-two": "for any k, v in pe.version_info : ( k == \"a\" )",
+             "in-iter": "for any s in pe.sections : ( s.name == \"x\" )", "in-strs": "for any t in (\"a\", \"b\") : ( t == \"a\" )",
+             "of-them": "for any of them : ( $ )", "of-set": "for all of ($a*) : ( # > 0 )", "of-num": "for 2 of them : ( @ > 1 )", "of-in": "any of them in (0..100)"}
+    BAD = {"in-range": "for any i in (1..3) : ( i == )", "in-enum": "for all j in (1, 2, 3) : ( undefined_ident == 1 )", "in-two": "for any k, v in pe.version_info : ( k == 1 )",
+           "in-iter": "for any s in pe.sections : ( s.nosuchfield == 1 )", "of-them": "for any of them : ( $ == )", "of-set": "for all of ($a*) : ( i )",
+           "in-nested": "for any i in (1..3) : ( for any j in (1..2) : ( i == j and ) )", "in-dup": "for any i in (1..3) : ( for any i in (1..2) : ( i == 1 ) )"}
+    def rule(n, cond): return 'rule lp%s { strings: $a1 = "abc" $a2 = "xyz" condition: ( %s ) or $a1 or $a2 }' % (n, cond)
+    head = 'import "pe" '
+    ks = sorted(LOOPS)
+    for x in ks:
+        for y in ks:
+            add(head + rule(1, "%s and %s" % (LOOPS[x], LOOPS[y])), "loop-sequence")
+            add(head + rule(1, LOOPS[x]) + " " + rule(2, LOOPS[y]), "loop-sequence")
+            add(head + rule(1, LOOPS[x]), "loop-sequence", "S", None, [rule(2, LOOPS[y]), rule(3, LOOPS[x])])
+            if x.startswith("in") and not y.startswith("of-in"):
+                inner = LOOPS[y]
+                add(head + rule(1, LOOPS[x].replace("( ", "( %s and " % inner, 1)), "loop-nested")
+            if x.startswith("of") and x != "of-in":
+                add(head + rule(1, LOOPS[x].replace("( ", "( %s and " % LOOPS[y], 1)), "loop-nested")
+    for bx in sorted(BAD):
+        for y in ks:
+            add(head + rule(1, BAD[bx]) + " " + rule(2, LOOPS[y]) + " " + rule(3, LOOPS["in-range"] + " and " + LOOPS["of-them"]), "loop-error-then-loop")
+            add(head + rule(1, "%s and %s" % (LOOPS[y], BAD[bx])) + " " + rule(2, LOOPS[y]), "loop-error-then-loop")
+            add(head + rule(0, LOOPS[y]) + " " + rule(1, BAD[bx]) + " " + rule(2, LOOPS["of-set"]) + " " + rule(3, LOOPS[y]), "loop-error-then-loop")
+    # one input per diagnosed semantic error / warning branch of the grammar actions (found with the gcov pass of the thorough tier)
+    SEM = ['$a = "x" xor(256)', '$a = "x" xor(300-301)', '$a = "x" xor(5-2)', '$a = "x" xor(0-256)', '$a = "x" xor(0-255) xor', '$a = "x" base64("short")',
+           '$a = "x" base64wide("short")', '$a = "x" base64 base64("%s")' % ("A" * 64), '$a = { 01 02 } private private', '$a = /ab/ nocase nocase', '$a = "x" wide wide',
+           '$a = "x" xor nocase', '$a = "x" base64 nocase', '$a = "x" base64 xor', '$a = "x" base64 fullword', '$a = "" ', '$a = /(/', '$a = { }']
+    for m in SEM:
+        add('rule se { strings: %s condition: $a }' % m, "semantic-error")
+    CONDS = ['pe.sections["a"].name == "x"', 'pe.version_info[1] == "x"', 'pe.number_of_sections[0] == 1', 'pe.number_of_sections() == 1', 'pe.sections[0]() == 1',
+             'pe.imports(nosuch) == 1', 'pe.imports("a", nosuch) == 1', 'pe.imports("a", "b", "c", "d") == 1', 'pe.nosuch == 1', 'nosuchmodule.x == 1',
+             '101% of them', '0% of them', '101% of (se*)', '0% of (se*)', 'ext_int% of them', 'ext_int% of (se*)', '5 of them in (0..1)', '3 of ($a) at 0', 'any of them at "x"',
+             'all of them at 0', 'ext_int of them in (0..10)', 'ext_int of them at 0', 'ext_int of them', 'ext_int of (se*)', '3 of (se*)', '"s" of them', '1.5 of them',
+             'any of ($nosuch*)', 'any of (nosuchrule*)', 'for any i in (1..2) : ( i == "s" )', 'for any i, j in (1..2) : ( i == 1 )', 'for any k in pe.version_info : ( k == "a" )',
+             'for any a, b, c in pe.version_info : ( a == "a" )', 'for any i in pe.number_of_sections : ( i == 1 )', 'for any i in ("a"..2) : ( true )', 'for any i in (1, "a") : ( true )',
+             '$a at "x"', '$a in (1.."x")', '$a in ("x"..2)', '#a in ("x"..2) == 1', '@a["x"] == 1', '!a["x"] == 1', 'uint8("x") == 1', '"a" + 1 == 2', 'not "a" == 1',
+             '1 matches /a/', '"a" matches "a"', '"a" contains 1', '1 contains "a"', '1 startswith "a"', '"a" endswith 1', '"a" iequals 1', '-"a" == 1', '~"a" == 1', '1 << "a" == 1',
+             '1 << 64 == 1', '1 >> -1 == 1', '1 \\ 0 == 1', '1 % 0 == 1', '9223372036854775807 + 1 == 0', '-9223372036854775807 - 2 == 0', '9223372036854775807 * 2 == 0',
+             'defined nosuch', 'se2', 'filesize == "a"', '"a" == 1', '1.5 == "a"', 'true == 1', '"\\g" == "g"', '"abc" matches /\\g/']
+    for c in CONDS:
+        add('import "pe" rule se1 { strings: $a = "x" $b = "y" condition: %s }' % c, "semantic-error")
+        add('import "pe" rule se0 { condition: true } rule se1 { strings: $a = "x" $b = "y" condition: ( %s ) and $a and $b } rule se3 { condition: se0 }' % c, "semantic-error")
     # oversized tokens around YR_LEX_BUF_SIZE (8192) and far beyond
     L = 8192
     for n in [L - 3, L - 2, L - 1, L, L + 1, L + 2, 2 * L, 70000] + ([] if quick else [1 << 20]):
@@ -203,6 +271,68 @@ def gen_cases(r, tier):
     return cases, meta
 
 
+
+COV_OBJECTS = ["grammar", "lexer", "hex_grammar", "hex_lexer", "re_grammar", "re_lexer"]
+
+
+def parser_coverage(cases, jobs_timeout=3000):
+    """gcov counting of which grammar actions / lexer rules the generated inputs reach (coverage build, no sanitizers).
+    -> {source file: {"units": n, "reached": m, "not_reached": [...]}}; a unit is a grammar alternative with an action or a lexer rule."""
+    import subprocess, shutil
+    b = core.build("plain", harness=["h_compile"], extra_defs="--coverage -DVERIF_COV", tag="cov")
+    odir = os.path.join(b["dir"], "o")
+    for f in glob.glob(os.path.join(odir, "*.gcda")) + glob.glob(os.path.join(b["dir"], "bin", "*.gcda")):
+        os.remove(f)
+    core.run_parallel([b["h_compile"], "10"], cases, timeout=jobs_timeout)
+    import json as _json
+    lines = {}            # source file (relative to the repo) -> {line: count}
+    for o in COV_OBJECTS:
+        gcda = os.path.join(odir, "libyara_%s.gcda" % o)
+        if not os.path.exists(gcda):
+            continue
+        r = subprocess.run(["gcov", "--json-format", "--stdout", "-o", odir, gcda], cwd=odir, stdout=subprocess.PIPE, stderr=subprocess.PIPE, text=True)
+        for doc in r.stdout.splitlines():
+            try:
+                j = _json.loads(doc)
+            except ValueError:
+                continue
+            for f in j.get("files", []):
+                fn = f["file"]
+                if fn.endswith((".y", ".l")):
+                    d = lines.setdefault(os.path.basename(fn), {})
+                    for l in f["lines"]:
+                        d[l["line_number"]] = d.get(l["line_number"], 0) + l["count"]
+    rep = {}
+    for name, cnts in sorted(lines.items()):
+        srcp = os.path.join(core.REPO, "libyara", name)
+        if not os.path.exists(srcp):
+            continue
+        units, cur, order = {}, None, []
+        nt = ""
+        in_rules = False
+        for ln, text in enumerate(open(srcp, errors="replace").read().split("\n"), 1):
+            if text.startswith("%%"):
+                in_rules = not in_rules if name.endswith(".l") else True
+                cur = None
+                continue
+            if name.endswith(".y"):
+                m = re.match(r"^([a-z_]+)\s*$", text)
+                if m: nt = m.group(1)
+                if re.match(r"^\s+[:|](\s|$)", text):
+                    cur = "%s @%d %s" % (nt, ln, " ".join(text.split())[:60]); units[cur] = [0, 0]; order.append(cur)
+            elif in_rules and text and not text[0].isspace() and text[0] not in "}%/#*":
+                cur = "@%d %s" % (ln, text.strip()[:60]); units[cur] = [0, 0]; order.append(cur)
+            if cur and ln in cnts:
+                units[cur][0] += 1
+                if cnts[ln] > 0:
+                    units[cur][1] += 1
+        act = [u for u in order if units[u][0] > 0]
+        rep[name] = {"units": len(act), "reached": sum(1 for u in act if units[u][1] > 0), "not_reached": [u for u in act if units[u][1] == 0],
+                     "code_lines": len(cnts), "code_lines_reached": sum(1 for v in cnts.values() if v > 0),
+                     "lines_not_reached": sorted(k for k, v in cnts.items() if v == 0)}
+    return rep
+
+
 def signature(line):
     if " TIMEOUT" in line:
         return ("timeout", "-")
@@ -233,7 +363,9 @@ def protocol_problem(fields):
     if errs != cb:
         return "ret_eq_errors: return value %d != %d error callbacks" % (errs, cb)
     if fields["msgok"] != "1":
-        return "EMPTY-MESSAGE an error callback had an empty message (last error %s)" % fields.get("lasterr")
+        return "an error callback had an empty message (last error %s)" % fields.get("lasterr")
+    if fields["lineok"] != "1":
+        return "every_error_has_line: %s error callback(s) had line < 1 (first such message: %s)" % (fields.get("l0"), fields.get("l0msg") if fields.get("l0") != fields.get("l0eof") else "unexpected end of file")
     if fields["follow"] != "ok":
         return "follow-up compile+scan in the same process: %s" % fields["follow"]
     if errs == 0 and fields["rules"] != "1":
@@ -288,7 +420,6 @@ def run(tier, replay=None):
     sigs = collections.defaultdict(list)
     nontrivial = set()
     nprob = 0
-    line0 = []
     for l in out:
         cid = l.split(" ", 1)[0]
         hist[meta.get(cid, "?")] += 1
@@ -301,13 +432,12 @@ def run(tier, replay=None):
                 raise RuntimeError("corpus rule does not compile: %s -> %s" % (byid[cid][:200], l))
             if int(f["errs"]) > 0 and meta.get(cid) != "valid":
                 nontrivial.add(byid[cid].split(" ", 1)[1])
-            if f["lineok"] != "1":
-                line0.append((cid, l))
             p = protocol_problem(f)
-            if p and p.startswith("EMPTY-MESSAGE"):
+            if p and f["msgok"] != "1":
+                # a listed finding names the error code whose message is empty; any other code with an empty message is a violation
                 kf = [x for x in known if x["signature"].get("empty_message") and x["signature"].get("last_error") == f.get("lasterr")]
-                if kf:
-                    outcomes["empty_message_wrong_type"] += 1
+                if kf and protocol_problem(dict(f, msgok="1")) is None:
+                    outcomes["empty_message:" + f.get("lasterr", "?")] += 1
                     if not any(k[0] is kf[0] for k in chk.known_hit):
                         chk.known(kf[0], "%s error callback with an empty message for %s, e.g. `%s`" %
                                   (kf[0]["id"], f.get("lasterr"), bytes.fromhex(byid[cid].split(" ")[2].replace("-", ""))[:160].decode("latin1")))
@@ -320,67 +450,29 @@ def run(tier, replay=None):
                 found = True
         else:
             sigs[signature(l)].append((byid.get(cid), l[:5000]))
-    # line < 1: finding F53 iff the same text followed by one more token (so that the lexer is not at end of input when the error is
-    # raised) reports every line >= 1; anything else is a violation of every_error_has_line
-    if line0:
-        comp = []
-        SUFFIXES = [b"\n}", b"*/\n}", b"\"\n}", b"/\n}"]   # the 2nd..4th first close an unterminated comment / string / regexp that would swallow the extra token
-        for cid, l in line0:
-            m0 = re.search(r" l0=(\d+) l0eof=(\d+) ", l)
-            if m0 and m0.group(1) == m0.group(2):
-                continue                                     # decided by the message, no companion needed
-            t = byid[cid].split(" ")
-            for k, suf in enumerate(SUFFIXES):
-                src = bytes.fromhex(t[2].replace("-", "")) + suf
-                comp.append(" ".join(["c%d_%s" % (k, cid), t[1], src.hex()] + t[3:]))
-        cout, crc, cerr = core.run_parallel([b["h_compile"], "20"], comp, timeout=3000) if comp else ([], 0, "")
-        cres = {}
-        for l2 in cout:
-            key = l2.split(" ", 1)[0].split("_", 1)[1]
-            if " ok " in l2[:24] and " lineok=1 " in l2:
-                cres[key] = l2
-            else:
-                cres.setdefault(key, l2)
-        kf = [f for f in known if f["signature"].get("level") == "protocol" and f["signature"].get("line") == 0]
-        nk = 0
-        for cid, l in line0:
-            c = cres.get(cid, "")
-            eof_only = re.search(r" l0=(\d+) l0eof=(\d+) ", l)
-            # bison names its look-ahead in the message: "unexpected end of file" = the error was raised on the EOF token
-            if kf and ((eof_only and eof_only.group(1) == eof_only.group(2)) or (" ok " in c[:24] and " lineok=1 " in c)):
-                nk += 1
-            elif nprob < 10:
-                nprob += 1
-                chk.violation("line0_%d.json" % nprob, {"kind": "error-protocol-violation", "engine": "compile", "harness": "h_compile", "case": byid[cid],
-                                                        "source_text": bytes.fromhex(byid[cid].split(" ")[2].replace("-", ""))[:2000].decode("latin1"),
-                                                        "implementation": l, "companion": c[:300],
-                                                        "model_spec": "every_error_has_line: an error callback had line < 1 (and not only because the input was exhausted)"})
-                found = True
-        outcomes["line0_at_end_of_input"] = nk
-        if nk:
-            ex = byid[line0[0][0]].split(" ")[2]
-            chk.known(kf[0], "%s error callback with line 0 on %d input(s) whose error is raised at end of input, e.g. `%s`" %
-                      (kf[0]["id"], nk, bytes.fromhex(ex.replace("-", ""))[:80].decode("latin1")))
     n = 0
     for (kind, fn), lst in sorted(sigs.items()):
         outcomes["report:%s@%s" % (kind, fn)] = len(lst)
-
-        def is_f54(case, l):
-            allocs = re.findall(r"allocated from:(.*?)(?: ##  ## |$)", l)
-            return kind == "memory-leak" and " I" in case and allocs and all("yara_yy_scan_b" in a for a in allocs)
         kf = [f for f in known if f["signature"].get("kind") == kind and f["signature"].get("function") == fn]
-        hit = [(c, l) for c, l in lst if kf and (kf[0]["id"] != "F54" or is_f54(c, l))]
-        if hit:
-            chk.known(kf[0], "%s %s (%s) on %d input(s), e.g. `%s`" % (kf[0]["id"], kind, fn, len(hit),
-                                                                     bytes.fromhex(hit[0][0].split(" ")[2].replace("-", ""))[:120].decode("latin1")))
-        if True:
-            for case, l in [x for x in lst if x not in hit][:2]:
-                n += 1
-                chk.violation("sanitizer_%d.json" % n, {"kind": "crash-leak-or-hang", "engine": "compile", "harness": "h_compile", "case": case,
-                                                        "source_text": bytes.fromhex(case.split(" ")[2].replace("-", ""))[:2000].decode("latin1") if case else None,
-                                                        "signature": {"kind": kind, "function": fn}, "implementation": l,
-                                                        "model_spec": "compilation terminates, no ASan/UBSan/LSan report, compiler destroyable"})
-                found = True
+        if kf:
+            chk.known(kf[0], "%s %s (%s) on %d input(s), e.g. `%s`" % (kf[0]["id"], kind, fn, len(lst),
+                                                                     bytes.fromhex(lst[0][0].split(" ")[2].replace("-", ""))[:120].decode("latin1")))
+            continue
+        for case, l in lst[:2]:
+            n += 1
+            chk.violation("sanitizer_%d.json" % n, {"kind": "crash-leak-or-hang", "engine": "compile", "harness": "h_compile", "case": case,
+                                                    "source_text": bytes.fromhex(case.split(" ")[2].replace("-", ""))[:2000].decode("latin1") if case else None,
+                                                    "signature": {"kind": kind, "function": fn}, "implementation": l,
+                                                    "model_spec": "compilation terminates, no ASan/UBSan/LSan report, compiler destroyable"})
+            found = True
+    if (tier == "thorough" or os.environ.get("VERIF_C07_COV")) and not replay:
+        qr = core.rng("C07")
+        qcases, _ = gen_cases(qr, "quick")
+        pc = parser_coverage(qcases)
+        chk.cov["parser_coverage_of_quick_tier_inputs"] = pc
+        for fn, v in sorted(pc.items()):
+            print("COVERAGE property=C07 %s: %d of %d grammar alternatives / lexer rules with code reached by the quick-tier inputs; not reached: %s" %
+                  (fn, v["reached"], v["units"], "; ".join(v["not_reached"][:12]) or "-"))
     core.handle_broken_proof(chk, lres, found)
     chk.cov.update({
         "evaluations": len(cases), "distinct_nontrivial": len(nontrivial),
